@@ -320,6 +320,7 @@ class Walker:
             if c.get("kind") == "ParmVarDecl" and ("unique_lock" in qt(c) or "lock_guard" in qt(c)):
                 locks[c.get("name", "")] = {"held": True, "mutex": "param"}
         ff.lk_helper = name.endswith("_lk")
+        ff.has_lock_param = bool(locks)
         self.stmt(body, ff, dict(in_assert=False, locks=locks, lambda_depth=0))
 
 
